@@ -6,6 +6,8 @@ every well-typed value, every path, operator and operand, what Compare does to `
 the independent specification `cmpAccepts` — the native comparison of the element native navigation
 reaches. The model of the current tree differs on the classes `nil-intercept`, `negative-index`,
 `elem-nil-cmp`, `nil-root-panics` (`repo_not_correct`).
+`section CurrentTree`: since the `fix:` commits no switch compare mode reads is left on in `GenCfg.repo`
+(`cmpN_repo`, `cmpM_repo`), so C04 holds of the emitter as it stands (`cmp_current`, `cmp_nil_root_current`).
 -/
 import InspectorModel.Proofs.C04
 namespace Inspector.C04
@@ -63,5 +65,37 @@ theorem repo_not_correct :
     cmpAccepts exNode exVal [seg "P", seg "B"] 1 (seg "nil") (cmpM GenCfg.original exNode .ptr exVal [seg "P", seg "B"] 1 (seg "nil")) = false := by
   decide
 end NonVacuity
+
+/-! ### The tree as it is now
+
+After the generator `fix:` commits (negative index, nil-intercept, element nil compare, typed-nil roots) no
+switch that compare mode consults is left on in `GenCfg.repo`: the model of the current tree *is* the repaired
+model, for every argument form. -/
+section CurrentTree
+
+theorem cmpN_repo (op : Op) (right : Seg) (p : List Seg) : ∀ (n : Node) (v : Val),
+    cmpN GenCfg.repo n v p op right = cmpN GenCfg.fixed n v p op right := by
+  induction p with
+  | nil => intro n v; cases n <;> rfl
+  | cons s rest ih => intro n v; unfold cmpN; simp only [ih]; rfl
+
+theorem cmpM_repo (n : Node) (f : Form) (v : Val) (p : List Seg) (op : Op) (right : Seg) :
+    cmpM GenCfg.repo n f v p op right = cmpM GenCfg.fixed n f v p op right := by
+  have h : rootOfC GenCfg.repo f = rootOfC GenCfg.fixed f := rfl
+  unfold cmpM; rw [h]; simp only [cmpN_repo]
+
+/-- C04 for the emitter as it stands. -/
+theorem cmp_current (n : Node) (v : Val) (p : List Seg) (op : Op) (right : Seg) (f : Form)
+    (hf : rootOf f = .ok) (hroot : RootOK n = true) (hwf : NodeWF n = true) (hok : EmitOK n = true)
+    (hwt : WT n v = true) :
+    cmpAccepts n v p op right (cmpM GenCfg.repo n f v p op right) = true := by
+  rw [cmpM_repo]; exact cmp_correct n v p op right f hf hroot hwf hok hwt
+
+/-- A typed-nil root is refused by the emitter as it stands: result untouched, no panic. -/
+theorem cmp_nil_root_current (n : Node) (v : Val) (p : List Seg) (op : Op) (right : Seg) (f : Form)
+    (hf : rootOf f ≠ .ok) : cmpM GenCfg.repo n f v p op right = .untouched := by
+  rw [cmpM_repo]; exact cmp_nil_root n v p op right f hf
+
+end CurrentTree
 
 end Inspector.C04
